@@ -107,94 +107,102 @@ def build(P):
     import z3 as _z3
     from pyvc.lemmas import running_total
     from pyvc.builtins import STR_IS_INT
-    LABELS2 = ["CAR", "PEDESTRIAN"]          # stated bound: two target labels (the per-label code is one comprehension / one inner loop over target_labels)
     ALC = idx.lookup("common.label:AutowareLabel")
     DIV = _z3.Function("divided_results", I, I, I)       # (list of results, label) -> the list divide_objects returns for that label
     NUM = _z3.Function("divided_count", I, I, I)         # (list of objects, label) -> the count divide_objects_to_num returns for that label
     lab_val = lambda name: member(idx, "common.label:AutowareLabel", name)
 
-    def div_cut(it, cf):
-        objs = cf.vars["objects"]
-        vals = []
+    def scene_task(LABELS_LIST, task_name, first):
+        """get_scene_result for the stated target labels (a stated bound: the per-label code is one comprehension / one inner loop over the labels); a label
+        listed twice (e.g. car + truck with merge_similar_labels) is still one label: every frame is pooled once and its ground truths are counted once"""
+        LABELS2 = list(dict.fromkeys(LABELS_LIST))
+        def div_cut(it, cf):
+            objs = cf.vars["objects"]
+            vals = []
+            for name in LABELS2:
+                z = DIV(objs.z, lab_val(name).z)
+                it.ctx.assume(_z3.And(z != 0, REF_TYPE(z) == RT.tag(), _z3.Select(it.ctx.alloc, z), it.ctx.slen(z) >= 0))
+                vals.append(VSList(z, RT.elem))
+            return it.ctx.new_cell("dict", ([lab_val(n) for n in LABELS2], vals))
+
+        def num_cut(it, cf):
+            objs = cf.vars["objects"]
+            vals = []
+            for name in LABELS2:
+                z = NUM(objs.z, lab_val(name).z)
+                it.ctx.assume(z >= 0)
+                vals.append(VInt(z))
+            return it.ctx.new_cell("dict", ([lab_val(n) for n in LABELS2], vals))
+
+        def spec_div(interp, e, fr):
+            a, b = interp.ev(e.args[0], fr), interp.ev(e.args[1], fr)
+            return VSList(DIV(a.z, b.z), RT.elem)
+
+        def spec_num(interp, e, fr):
+            a, b = interp.ev(e.args[0], fr), interp.ev(e.args[1], fr)
+            return VInt(NUM(a.z, b.z))
+
+        def spec_lit(interp, e, fr):
+            return VBool(STR_IS_INT(interp.ev(e.args[0], fr).z))
+        if first:
+            P.install(lambda it: it.spec_funcs.update(divided_results=spec_div, divided_count=spec_num, py_int_literal=spec_lit))
+        MSC = idx.lookup("evaluation.metrics.metrics:MetricsScore")
+
+        def ms_cut(it, cf):
+            o = it.ctx.new_cell("obj", {}, MSC)
+            it.ctx.cell(o).update(config=cf.vars["config"], used_frame=cf.vars["used_frame"], seen_results=NONE, seen_num_gt=NONE)
+            return o
+        eval_det = Contract("evaluation.metrics.metrics:MetricsScore.evaluate_detection", params={}, assigns={"self.seen_results": "object_results", "self.seen_num_gt": "num_ground_truth"})
+
+        def make_manager2(it):
+            o = make_manager(it)
+            labels = it.ctx.new_cell("list", [lab_val(n) for n in LABELS_LIST])
+            mc = plain(it, detection_config=plain(it), tracking_config=NONE, prediction_config=NONE, classification_config=NONE)
+            ev = it.ctx.cell(o)["evaluator_config"]
+            it.ctx.cell(ev).update(target_labels=labels, metrics_config=mc)
+            it.ctx.cell(o).update(target_labels=labels, metrics_config=mc)
+            return o
+        FRS = "self.frame_results"
+        nF = f"len({FRS})"
+        tot, tdefs = {}, []
         for name in LABELS2:
-            z = DIV(objs.z, lab_val(name).z)
-            it.ctx.assume(_z3.And(z != 0, REF_TYPE(z) == RT.tag(), _z3.Select(it.ctx.alloc, z), it.ctx.slen(z) >= 0))
-            vals.append(VSList(z, RT.elem))
-        return it.ctx.new_cell("dict", ([lab_val(n) for n in LABELS2], vals))
+            g, d = running_total(f"gt_total_{name}")
+            tot[f"gt_total_{name}"] = g
+            tdefs += d(lambda gg, name=name: f"divided_count({FRS}[{gg}].frame_ground_truth.objects, AutowareLabel.{name})", nF)
+        AFR, ANG = "all_frame_results", "all_num_gt"
+        per_label = lambda f: " and ".join(f(name) for name in LABELS2)
+        inv_scene = E("one_slot_per_frame_after_the_leading_empty_list",
+                      per_label(lambda n: f"len({AFR}[AutowareLabel.{n}]) == i + 1 and len({AFR}[AutowareLabel.{n}][0]) == 0 and not is_old({AFR}[AutowareLabel.{n}]) and "
+                                          f"well_typed({AFR}[AutowareLabel.{n}][0]) and allocated({AFR}[AutowareLabel.{n}][0]) and allocated({AFR}[AutowareLabel.{n}])") +
+                      "".join(f" and {AFR}[AutowareLabel.{x}] is not {AFR}[AutowareLabel.{y}]" for x, y in zip(LABELS2, LABELS2[1:])),
+                      "slot_k_holds_frame_k_results_of_that_label",
+                      per_label(lambda n: f"forall(k, 0, i, {AFR}[AutowareLabel.{n}][k + 1] is divided_results({FRS}[k].object_results, AutowareLabel.{n}))"),
+                      "ground_truth_counts_add_up", per_label(lambda n: f"{ANG}[AutowareLabel.{n}] == gt_total_{n}(i)"),
+                      "frames_used", f"len(used_frame) == i and not is_old(used_frame) and forall(k, 0, i, used_frame[k] == int({FRS}[k].frame_name))",
+                      "frame_results_untouched", f"{nF} == old({nF}) and forall(k, 0, {nF}, {FRS}[k] is old({FRS}[k]))")
+        if first:
+            P.model(ClassModel("PerceptionFrameResult", {"object_results": RT, "frame_ground_truth": TSObj("FrameGroundTruth"), "unix_time": TInt(), "frame_name": TStr()},
+                               repo_class=idx.lookup(f"{FR}:PerceptionFrameResult"))).alloc_smt = True
+        line = [nd.lineno for nd in _ast.walk(idx.lookup(f"{MG}:PerceptionEvaluationManager.get_scene_result").node) if isinstance(nd, _ast.DictComp)]
+        P.verify(f"{MG}:PerceptionEvaluationManager.get_scene_result", name=task_name,
+                 contract=Contract(f"{MG}:PerceptionEvaluationManager.get_scene_result", cut=False, params={"self": make_manager2},
+                                   locals={"used_frame": TSList(TInt()), f"#dictvalue{line[0]}": TSList(RT)},
+                                   ghosts=tot, defs=tdefs,
+                                   raises={"ValueError": f"exists(g, 0, {nF}, not py_int_literal({FRS}[g].frame_name))"},
+                                   loops={1: LoopSpec(index="i", invariants=inv_scene)},
+                                   ensures=E("the_scene_is_scored_on_the_pooled_per_frame_results",
+                                             per_label(lambda n: f"len(result.seen_results[AutowareLabel.{n}]) == {nF} + 1 and "
+                                                                 f"forall(k, 0, {nF}, result.seen_results[AutowareLabel.{n}][k + 1] is divided_results({FRS}[k].object_results, AutowareLabel.{n}))"),
+                                             "ground_truth_counts_add_up_over_the_frames", per_label(lambda n: f"result.seen_num_gt[AutowareLabel.{n}] == gt_total_{n}({nF})"),
+                                             "every_frame_is_used_once_in_order", f"len(result.used_frame) == {nF} and forall(k, 0, {nF}, result.used_frame[k] == int({FRS}[k].frame_name))",
+                                             "stored_frame_results_untouched", f"{nF} == old({nF}) and forall(k, 0, {nF}, {FRS}[k] is old({FRS}[k]))")),
+                 extra_contracts={idx.lookup(f"{OF}:divide_objects").fq: Contract(f"{OF}:divide_objects", params={}, returns=div_cut),
+                                  idx.lookup(f"{OF}:divide_objects_to_num").fq: Contract(f"{OF}:divide_objects_to_num", params={}, returns=num_cut),
+                                  MSC.fq: Contract("evaluation.metrics.metrics:MetricsScore", returns=ms_cut),
+                                  idx.lookup("evaluation.metrics.metrics:MetricsScore.evaluate_detection").fq: eval_det})
 
-    def num_cut(it, cf):
-        objs = cf.vars["objects"]
-        vals = []
-        for name in LABELS2:
-            z = NUM(objs.z, lab_val(name).z)
-            it.ctx.assume(z >= 0)
-            vals.append(VInt(z))
-        return it.ctx.new_cell("dict", ([lab_val(n) for n in LABELS2], vals))
-
-    def spec_div(interp, e, fr):
-        a, b = interp.ev(e.args[0], fr), interp.ev(e.args[1], fr)
-        return VSList(DIV(a.z, b.z), RT.elem)
-
-    def spec_num(interp, e, fr):
-        a, b = interp.ev(e.args[0], fr), interp.ev(e.args[1], fr)
-        return VInt(NUM(a.z, b.z))
-
-    def spec_lit(interp, e, fr):
-        return VBool(STR_IS_INT(interp.ev(e.args[0], fr).z))
-    P.install(lambda it: it.spec_funcs.update(divided_results=spec_div, divided_count=spec_num, py_int_literal=spec_lit))
-    MSC = idx.lookup("evaluation.metrics.metrics:MetricsScore")
-
-    def ms_cut(it, cf):
-        o = it.ctx.new_cell("obj", {}, MSC)
-        it.ctx.cell(o).update(config=cf.vars["config"], used_frame=cf.vars["used_frame"], seen_results=NONE, seen_num_gt=NONE)
-        return o
-    eval_det = Contract("evaluation.metrics.metrics:MetricsScore.evaluate_detection", params={}, assigns={"self.seen_results": "object_results", "self.seen_num_gt": "num_ground_truth"})
-
-    def make_manager2(it):
-        o = make_manager(it)
-        labels = it.ctx.new_cell("list", [lab_val(n) for n in LABELS2])
-        mc = plain(it, detection_config=plain(it), tracking_config=NONE, prediction_config=NONE, classification_config=NONE)
-        ev = it.ctx.cell(o)["evaluator_config"]
-        it.ctx.cell(ev).update(target_labels=labels, metrics_config=mc)
-        it.ctx.cell(o).update(target_labels=labels, metrics_config=mc)
-        return o
-    FRS = "self.frame_results"
-    nF = f"len({FRS})"
-    tot, tdefs = {}, []
-    for name in LABELS2:
-        g, d = running_total(f"gt_total_{name}")
-        tot[f"gt_total_{name}"] = g
-        tdefs += d(lambda gg, name=name: f"divided_count({FRS}[{gg}].frame_ground_truth.objects, AutowareLabel.{name})", nF)
-    AFR, ANG = "all_frame_results", "all_num_gt"
-    per_label = lambda f: " and ".join(f(name) for name in LABELS2)
-    inv_scene = E("one_slot_per_frame_after_the_leading_empty_list",
-                  per_label(lambda n: f"len({AFR}[AutowareLabel.{n}]) == i + 1 and len({AFR}[AutowareLabel.{n}][0]) == 0 and not is_old({AFR}[AutowareLabel.{n}]) and "
-                                      f"well_typed({AFR}[AutowareLabel.{n}][0]) and allocated({AFR}[AutowareLabel.{n}][0]) and allocated({AFR}[AutowareLabel.{n}])") +
-                  f" and {AFR}[AutowareLabel.CAR] is not {AFR}[AutowareLabel.PEDESTRIAN]",
-                  "slot_k_holds_frame_k_results_of_that_label",
-                  per_label(lambda n: f"forall(k, 0, i, {AFR}[AutowareLabel.{n}][k + 1] is divided_results({FRS}[k].object_results, AutowareLabel.{n}))"),
-                  "ground_truth_counts_add_up", per_label(lambda n: f"{ANG}[AutowareLabel.{n}] == gt_total_{n}(i)"),
-                  "frames_used", f"len(used_frame) == i and not is_old(used_frame) and forall(k, 0, i, used_frame[k] == int({FRS}[k].frame_name))",
-                  "frame_results_untouched", f"{nF} == old({nF}) and forall(k, 0, {nF}, {FRS}[k] is old({FRS}[k]))")
-    P.model(ClassModel("PerceptionFrameResult", {"object_results": RT, "frame_ground_truth": TSObj("FrameGroundTruth"), "unix_time": TInt(), "frame_name": TStr()},
-                       repo_class=idx.lookup(f"{FR}:PerceptionFrameResult"))).alloc_smt = True
-    line = [nd.lineno for nd in _ast.walk(idx.lookup(f"{MG}:PerceptionEvaluationManager.get_scene_result").node) if isinstance(nd, _ast.DictComp)]
-    P.verify(f"{MG}:PerceptionEvaluationManager.get_scene_result", name="get_scene_result[two target labels, detection]",
-             contract=Contract(f"{MG}:PerceptionEvaluationManager.get_scene_result", cut=False, params={"self": make_manager2},
-                               locals={"used_frame": TSList(TInt()), f"#dictvalue{line[0]}": TSList(RT)},
-                               ghosts=tot, defs=tdefs,
-                               raises={"ValueError": f"exists(g, 0, {nF}, not py_int_literal({FRS}[g].frame_name))"},
-                               loops={1: LoopSpec(index="i", invariants=inv_scene)},
-                               ensures=E("the_scene_is_scored_on_the_pooled_per_frame_results",
-                                         per_label(lambda n: f"len(result.seen_results[AutowareLabel.{n}]) == {nF} + 1 and "
-                                                             f"forall(k, 0, {nF}, result.seen_results[AutowareLabel.{n}][k + 1] is divided_results({FRS}[k].object_results, AutowareLabel.{n}))"),
-                                         "ground_truth_counts_add_up_over_the_frames", per_label(lambda n: f"result.seen_num_gt[AutowareLabel.{n}] == gt_total_{n}({nF})"),
-                                         "every_frame_is_used_once_in_order", f"len(result.used_frame) == {nF} and forall(k, 0, {nF}, result.used_frame[k] == int({FRS}[k].frame_name))",
-                                         "stored_frame_results_untouched", f"{nF} == old({nF}) and forall(k, 0, {nF}, {FRS}[k] is old({FRS}[k]))")),
-             extra_contracts={idx.lookup(f"{OF}:divide_objects").fq: Contract(f"{OF}:divide_objects", params={}, returns=div_cut),
-                              idx.lookup(f"{OF}:divide_objects_to_num").fq: Contract(f"{OF}:divide_objects_to_num", params={}, returns=num_cut),
-                              MSC.fq: Contract("evaluation.metrics.metrics:MetricsScore", returns=ms_cut),
-                              idx.lookup("evaluation.metrics.metrics:MetricsScore.evaluate_detection").fq: eval_det})
+    scene_task(["CAR", "PEDESTRIAN"], "get_scene_result[two target labels, detection]", True)
+    scene_task(["CAR", "CAR"], "get_scene_result[one target label listed twice, detection]", False)
     # "a one-frame scene reproduces that frame's score": the frame's own score is computed from the same filtered lists that get_scene_result pools
     # (C03's evaluate_frame task with the detection metrics on, re-verified here)
     import contracts.C03 as C03
